@@ -202,13 +202,19 @@ func (m *Migrator) mergeResults(results []MigrationResult, typeConverter *TypeCo
 		return nil, nil, fmt.Errorf("no results to merge")
 	}
 
-	// Validate package names
+	// Validate that all results belong to one package: the same name and, when type
+	// information is there, the same import path (two commands are both "package main")
 	pkgName := results[0].Package
 	for _, r := range results[1:] {
-		if r.Package != pkgName {
+		samePath := results[0].TypesPackage == nil || r.TypesPackage == nil || results[0].TypesPackage.Path() == r.TypesPackage.Path()
+		if r.Package != pkgName || !samePath {
+			first, other := pkgName, r.Package
+			if first == other {
+				first, other = results[0].TypesPackage.Path(), r.TypesPackage.Path()
+			}
 			return nil, nil, &MergeError{
 				Kind:     MergeErrorPackageMismatch,
-				Message:  fmt.Sprintf("package mismatch: %s vs %s", pkgName, r.Package),
+				Message:  fmt.Sprintf("package mismatch: %s vs %s", first, other),
 				Files:    []string{results[0].SourceFile, r.SourceFile},
 				Packages: []string{pkgName, r.Package},
 			}
